@@ -63,7 +63,7 @@ theorem prefix_processed (ms : List (UInt8 × Bytes)) (tail : Bytes)
 
 /-- a stream that ends inside a header or body ends the reader with a plain I/O error, never a
 NOTIFICATION -/
-theorem truncated_no_notification (s : Bytes) (h : s.length < 19) : readAll s = ([], .other) :=
+theorem truncated_no_notification (s : Bytes) (h : s.length < 19) : readAll s = ([], .eof) :=
   Lemmas.truncated_no_notification s h
 
 /-- the reader never panics, on streams of every length -/
